@@ -124,6 +124,17 @@ CHECKS.update({
     ),
 })
 
+CHECKS.update({
+    "C17": dict(
+        category="model_checking",
+        technique="exhaustive enumeration of argument vectors (every option token of an alphabet derived at run time from fq's option table x every position x programs x all lists of 0..3 inputs of 5 kinds) run in-process through the real CLI entry, against a reference model of exit status, stderr and per-input independence (metamorphic run-alone relation); states = distinct (flag mode, error memory, remaining inputs)",
+        text="244 option tokens (every short/long/alias spelling, --long=value, all 132 ordered pairs of combined bool shorts, valued options with value/=value/missing/bad value, unknown options, --, -1) x every word position x 5 programs (succeeding, failing at run time on some inputs, error, not compiling, variable use) x input lists; all 156 lists of 0..3 inputs over {decodable g1, decodable g2, undecodable, missing, directory} x 10 mode representatives (-n -s -R -Rs -c -j -d json -d image -i); stdin variants. Each run goes through interp.Main with a virtual file system. Oracle: reference model written from doc/usage.md and the jq manual: exit status class and precedence, stdout equal to the concatenation in argument order of what each good input prints when run alone with the same flags, one error line per failing input on stderr in order, error memory (_input_io_errors, _input_decode_errors, _cli_last_expr_error, remaining file names) after every input, jq-compatible mode semantics predicted from the JSON contents of the files.",
+        design_ref="§C17",
+        note="Ambiguities accepted as sets (invalid --arg NAME 2 or 3; help combined with an argument error 0 or 2). Compile failure is detected before inputs are opened. Quick replaces the full token x 156 list product by (modes x all lists) + (tokens x positions x 4 lists); thorough continues with token pairs and all lists until its deadline.",
+        engine="enum",
+    ),
+})
+
 NOT_YET = {
 }
 
